@@ -12,7 +12,7 @@ HARNESS = ["auth/api/iam/zz_verif_c02_test.go", "storage/zz_verif_c02_export.go"
 
 REQUIRED = [
     "s2s_token_only_if", "s2s_defect_combination_rejected", "claims_cannot_override", "claims_cannot_override_today",
-    "authorize_request_only_if", "authorize_response_only_if", "authresp_nonce_at_most_once", "race_at_most_one_accepted", "code_token_only_if", "code_redeemed_at_most_once", "nonce_covers_window",
+    "authorize_request_only_if", "authorize_response_only_if", "authresp_nonce_at_most_once", "race_at_most_one_accepted", "code_token_only_if", "code_token_independent_of_extra_parameters", "code_token_scope_is_session_scope", "fact_request_members_read", "code_redeemed_at_most_once", "nonce_covers_window",
     "nonce_covers_window_today", "s2s_nonce_store_fault_fails_closed", "introspect_active_only_if_issued", "introspect_faithful",
     "introspect_depends_on_token_store_only", "s2s_all_required_definitions_fulfilled_false", "plain_introspection_members",
     "fact_s2s_chain", "fact_code_token_chain", "fact_authorize_response_chain", "fact_introspect_chain",
@@ -133,6 +133,9 @@ class Oracle:
                          f"op {i}: scope {op.get('scope')} requires {[d['owner'] + ':' + d['id'] for d in defs]}, token issued on {op.get('def_id')} alone", [i])
         for wname in sorted(set(why)):
             self.bad("s2s-token-issued-despite:" + wname, f"op {i}: 200 for a request with defect {wname} ({op.get('defects')})", [i])
+        got_scope = dict(x.split("=", 1) for x in line.split()[1:] if "=" in x).get("scope")
+        if got_scope != op.get("scope"):
+            self.bad("s2s-token-scope-differs-from-requested-scope", f"op {i}: requested {op.get('scope')!r}, token response says {got_scope!r} (extra parameters {op.get('extra_form')})", [i])
         name = line.split()[1].split("=", 1)[1]
         self.tokens[name] = (i, op, "s2s")
         for vp in (op.get("vps") or []):
@@ -237,6 +240,11 @@ class Oracle:
         for wname in sorted(set(why)):
             self.bad("code-token-issued-despite:" + wname, f"op {i}: 200 for a token request with defect {wname} ({op.get('defects')})",
                      [c["session"]["i"]] + c["session"].get("trail", []) + [i])
+        got_scope = dict(x.split("=", 1) for x in line.split()[1:] if "=" in x).get("scope")
+        if got_scope != spec["scope"]:
+            self.bad("code-token-scope-differs-from-authorized-scope",
+                     f"op {i}: the authorization request (and the fulfilled definitions) were for scope {spec['scope']!r}, the token response says {got_scope!r} "
+                     f"(extra token-request parameters {op.get('extra_form')})", [c["session"]["i"]] + c["session"].get("trail", []) + [i])
         c["redeemed"] = True
         name = line.split()[1].split("=", 1)[1]
         op["_session"] = spec
